@@ -1,5 +1,6 @@
 import Proofs.C04
 import Proofs.C04.Part
+import Proofs.C04.Retention
 /-!
 # C04 — removed entries stay removed: tombstones block resurrection and are never shown
 
@@ -83,6 +84,53 @@ theorem gc_only_old (l : Int) (d : Desc) (e : Inst) :
 /-- the full-state message carries every stored value as it is, tombstones included -/
 theorem localstate_carries {V : Type} (nd : Node V) (k : String) (e : Entry V) (h : (k, e) ∈ nd.store) :
     ∃ m ∈ localState nd, m.key = k ∧ m.val = e.val ∧ m.deleted = e.deleted := localState_carries nd k e h
+
+/-! ### histories in which the retention IS reached (`LeftIngestersTimeout = lit > 0`, tombstones collected)
+
+`deliverVal lit now s m` is what a node stores after merging message value `m` at clock `now`
+(`retention_deliver_is_deliverVal` ties it to the node model's `deliver`). Readers never see a tombstone
+whatever the retention (`reader_never_sees`, `watcher_never_sees` have no retention hypothesis). -/
+
+/-- the node model stores exactly `deliverVal` on the gossip path with a positive retention -/
+theorem retention_deliver_is_deliverVal (hU : Univ U) {cfg : Cfg} (hlit : cfg.lit > 0) (now : Int) {nd : Node Desc} {m : Msg Desc}
+    {c : Entry Desc} (hg : getE nd.store m.key = some c) (hc : Drawn U c.val) (hcd : c.deleted = false)
+    (hm : Drawn U m.val) (hmd : m.deleted = false) :
+    sval (deliver cfg now nd m).store m.key = deliverVal cfg.lit now c.val m.val :=
+  deliver_sval_gc hU hlit now hg hc hcd hm hmd
+
+/-- with any retention: a message whose entry for `x` is not newer than the tombstone never makes `x`
+visible — afterwards `x` is that tombstone or has been collected — and the tombstone is kept while retained -/
+theorem tombstone_blocks_retention (hU : Univ U) (lit now : Int) {s m : Desc} (hs : Drawn U s) (hm : Drawn U m) (x : String)
+    (e : Inst) (he : get? s x = some e) (hleft : e.state = .LEFT) (hold : ∀ e', get? m x = some e' → e'.ts ≤ e.ts) :
+    (∀ e', get? (deliverVal lit now s m) x = some e' → e' = e) ∧
+    (e.ts ≥ now - lit → get? (deliverVal lit now s m) x = some e) :=
+  PfC04.tombstone_blocks_retention hU lit now hs hm x e he hleft hold
+
+/-- **no resurrection when the retention is reached**, over unbounded delivery sequences at non-decreasing
+clocks with collection along the way. Proviso `NoStale` = "no in-flight message older than the retention":
+a delivered live entry of `x` that predates the removal (`ts ≤ t`) is not older than `now - lit` when it
+is delivered. Then `x` never becomes visible with a timestamp `≤ t`. (After the tombstone was collected,
+at some clock `> t + lit`, every entry produced before the removal IS older than the retention: the
+proviso then says such messages are no longer in flight.) -/
+theorem hist_no_resurrection_retention (hU : Univ U) {lit t : Int} (x : String) (ds : List (Int × Desc)) {clock : Int} {s : Desc}
+    (hs : Drawn U s) (e0 : Inst) (he0 : get? s x = some e0) (hleft : e0.state = .LEFT) (hts : e0.ts = t)
+    (hclk : List.Pairwise (· ≤ ·) (clock :: ds.map (·.1))) (hds : ∀ p ∈ ds, Drawn U p.2 ∧ NoStale lit t x p.1 p.2) :
+    ∀ e, get? (deliverSeq lit s ds) x = some e → e.state = .LEFT ∨ e.ts > t :=
+  no_resurrection_retention hU x ds hs (removed_of_tombstone x clock e0 he0 hleft hts) hclk hds
+
+/-- the proviso is needed (witness, retention 2 s): the tombstone `a@5` is collected at clock 100 by an
+unrelated change; the heartbeat `a@4`, produced before the removal and far older than the retention,
+then makes `a` visible again -/
+theorem stale_message_resurrects_after_collection :
+    let s : Desc := [{ id := "a", ts := 5, state := .LEFT }]
+    let s1 := deliverVal 2 100 s [{ id := "b", ts := 99 }]
+    let s2 := deliverVal 2 100 s1 [{ id := "a", ts := 4 }]
+    get? s1 "a" = none ∧ get? s2 "a" = some { id := "a", ts := 4 } := by decide
+
+-- non-vacuity: retained tombstone, same-second heartbeat delivered twice with an unrelated change in between
+example : deliverSeq 300 [{ id := "a", ts := 10, state := .LEFT }]
+    [(11, [{ id := "a", ts := 10 }]), (12, [{ id := "b", ts := 12 }]), (400, [{ id := "a", ts := 10 }])] =
+    [{ id := "a", ts := 10, state := .LEFT }, { id := "b", ts := 12 }] := by decide
 
 /-! ### partition ring (entry-level rules of `PartitionRingDesc.mergeWithTime`) -/
 open C03P in
